@@ -3,4 +3,4 @@
 From Coq Require Extraction ExtrOcamlBasic ExtrOcamlZBigInt.
 From Verif Require Import Lib.Bytes Model.Ledger.
 Extraction Language OCaml.
-Extraction "../ocaml/c08_model.ml" bz zb init step_gen op_ok store_respends utxos persisted l_keys l_txs.
+Extraction "../ocaml/c08_model.ml" bz zb init step_gen op_ok store_respends utxos persisted l_keys l_txs has_cross.
